@@ -1014,7 +1014,18 @@ fn child_sweep(args: &vh::Args) -> ! {
 // ---------------------------------------------------------------------------------------------
 // part (ii): grammar-near families
 // ---------------------------------------------------------------------------------------------
-const FIELDS: [&str; 15] = [
+const FIELDS: [&str; 25] = [
+    // lengths at which `len * k` or `len + k` wraps in usize / i64 / u32 arithmetic (k = 2, 3, 4, 8, 16), and 2^31 / 2^32
+    "2147483647",
+    "4294967295",
+    "4294967296",
+    "1152921504606846976",
+    "2305843009213693952",
+    "3074457345618258603",
+    "4611686018427387904",
+    "6148914691236517206",
+    "18446744073709551615",
+    "18446744073709551616",
     "-2",
     "-1",
     "0",
